@@ -336,6 +336,37 @@ fn typed_stream_after_consumer_gone() -> String {
     r.unwrap_or_else(|_| "PANIC".to_string())
 }
 
+/// aborting ONE child of `all` through that child's own handle leaves its sibling alone
+fn typed_all_first_child_abort() -> String {
+    let r = std::panic::catch_unwind(|| {
+        let a: Command<Effect, Event> = Command::request_from_shell(Op(11)).then_send(Event::Got);
+        let ha = a.abort_handle();
+        let b: Command<Effect, Event> = Command::request_from_shell(Op(12)).then_send(Event::Got);
+        let mut all = Command::all([a, b]);
+        ha.abort();
+        let mut reqs: Vec<Request<Op>> = all.effects().filter_map(|e| if let Effect::Op(r) = e { Some(r) } else { None }).collect();
+        let ops: Vec<u8> = reqs.iter().map(|r| r.operation.0).collect();
+        for r in reqs.iter_mut() {
+            let _ = r.resolve(7);
+        }
+        let evs: Vec<u8> = all.events().map(|e| if let Event::Got(v) = e { v } else { 255 }).collect();
+        format!("effects={ops:?} events={evs:?} done={} aborted={}", all.is_done(), all.was_aborted())
+    });
+    r.unwrap_or_else(|_| "PANIC".to_string())
+}
+
+/// request -> then_stream: the shell drops the FIRST request unresolved; nothing can ever wake the task again
+fn typed_then_stream_first_dropped() -> String {
+    let r = std::panic::catch_unwind(|| {
+        let mut cmd: Command<Effect, Event> = Command::request_from_shell(Op(11)).then_stream(|_x| Command::stream_from_shell(Op(12))).then_send(Event::Got);
+        let reqs: Vec<Request<Op>> = cmd.effects().filter_map(|e| if let Effect::Op(r) = e { Some(r) } else { None }).collect();
+        let n = reqs.len();
+        drop(reqs);
+        format!("requests={n} done-after-drop={}", cmd.is_done())
+    });
+    r.unwrap_or_else(|_| "PANIC".to_string())
+}
+
 /// a tiny `next` for streams (avoids a dependency on futures' StreamExt in this driver)
 mod futures_lite_next {
     use std::future::Future;
@@ -360,6 +391,8 @@ use futures_lite_next::futures_core_stream;
 
 fn main() {
     std::panic::set_hook(Box::new(|_| {}));
+    println!("typed-all-first-child-abort REAL {} | EXPECT effects=[12] events=[7] done=true aborted=false", typed_all_first_child_abort());
+    println!("typed-then-stream-first-dropped REAL {} | EXPECT requests=1 done-after-drop=true", typed_then_stream_first_dropped());
     println!("typed-stream-after-consumer-gone REAL {} | EXPECT Ok,Ok,Err delivered=[11, 12]", typed_stream_after_consumer_gone());
     for (name, real, expect) in bincode_scenarios() {
         println!("{name} REAL {real} | EXPECT {expect}");
